@@ -72,13 +72,17 @@ theorem pileup_log2_eq_src (b : Row) (bc s e : Int) (hbc : 0 ≤ bc) (L : Rat) :
 
 /-- `-Q` is passed exactly when the cut-off is positive, so samtools always works with `min_mapq` itself -/
 theorem bedcov_minq_eq (q : Nat) : src_bedcov_minq (q : Rat) = (q : Rat) := by
-  unfold src_bedcov_minq
   by_cases h : q = 0
-  · subst h; simp
+  · subst h; simp [src_bedcov_minq]
   · have h1 : (q : Rat) ≠ 0 := by exact_mod_cast h
     have h2 : (q : Rat) > 0 := by
       have : 0 < q := Nat.pos_of_ne_zero h
       exact_mod_cast this
-    rw [if_pos ⟨h1, h2⟩]
+    have hc : (q : Rat) ≠ 0 ∧ (q : Rat) > 0 := ⟨h1, h2⟩
+    unfold src_bedcov_minq
+    split
+    · rfl
+    · rename_i hn
+      exact absurd (by first | exact hc | exact hc.2 | exact hc.1) hn
 
 end CnvVerif.Src
